@@ -407,7 +407,8 @@ func init() {
 			"oracle B: the explicit-name converter ran, the type-only one did not, the target's argument comes from the explicit one. All converter forms, typed or n-named output, with/without error, shuffled order, unrelated distractors; R repetitions. " +
 			"Mode C (1 case in 5): 2-3 named target parameters n_i:U all produced through ONE type-only converter T->U, each with its own same-named input n_i:T among other named T values; oracle: parameter n_i receives the output of an execution whose argument was the input named n_i. " +
 			"Mode D (1 in 5): the type-only converter has a second type-only input W that must itself be derived from T by another converter; oracle: the T argument of the main converter is still the input named n (which T feeds the nested conversion is not prescribed). " +
-			"non-trivial = >= 2 competing named inputs (A, C, D) / both converters present (B)",
+			"Mode E: as D but the second input W is supplied directly (named 'flag', named like the parameter, or type-only), so the cheapest path may enter the converter through that argument. " +
+			"non-trivial = >= 2 competing named inputs (A, C, D, E) / both converters present (B)",
 		Assumptions: []string{"both competing converters declare the same output label (the property compares how they take their input)"},
 		Run: func(c *CaseCtx) CaseResult {
 			var res CaseResult
@@ -561,10 +562,42 @@ func runC07Multi(c *CaseCtx, r *rand.Rand, names []string) (res CaseResult) {
 	perm3 := r.Perm(nConcrete)
 	T, U, W := perm3[0], perm3[1], perm3[2]
 	perm := r.Perm(len(names))
-	mode := 2 + r.Intn(2)
+	mode := 2 + r.Intn(3)
 	var s Scenario
 	var wanted []string
-	if mode == 2 {
+	if mode == 4 {
+		// mode E: the type-only converter has a second input W that is
+		// SUPPLIED directly (named or type-only); the path to the converter
+		// may then enter through that argument, and the T argument must still
+		// be the input named n
+		n := names[perm[0]]
+		wanted = []string{n}
+		s.Inputs = append(s.Inputs, Label{Name: n, Type: T})
+		for j := 0; j < 1+r.Intn(4); j++ {
+			s.Inputs = append(s.Inputs, Label{Name: names[perm[1+j]], Type: T})
+		}
+		second := Label{Type: W}
+		switch r.Intn(3) {
+		case 0:
+			second.Name = "flag"
+		case 1:
+			// same name as the parameter, other type (needs a subtype: named
+			// values are keyed by name and subtype)
+			second.Name, second.Sub = n, "w"
+		}
+		s.Inputs = append(s.Inputs, second)
+		outL := Label{Type: U}
+		if r.Intn(2) == 0 {
+			outL = Label{Name: n, Type: U}
+		}
+		in2 := []Label{{Type: T}, second}
+		if r.Intn(2) == 0 {
+			in2[0], in2[1] = in2[1], in2[0]
+		}
+		conv1 := FuncSpec{In: in2, Out: []Label{outL}, InForm: formFor(in2, r, false), OutForm: formFor([]Label{outL}, r, false), HasErr: r.Intn(2) == 0}
+		s.Convs = []FuncSpec{conv1}
+		s.Target = FuncSpec{In: []Label{{Name: n, Type: U}}, InForm: 1 + r.Intn(2)}
+	} else if mode == 2 {
 		np := 2 + r.Intn(2)
 		for i := 0; i < np; i++ {
 			wanted = append(wanted, names[perm[i]])
@@ -652,7 +685,11 @@ func runC07Multi(c *CaseCtx, r *rand.Rand, names []string) (res CaseResult) {
 					continue
 				}
 				if got := fedBy(ce); got != a.Param.Name {
-					res.violate("C07", "wrong-input-converted", fmt.Sprintf("parameter %v was converted from the input named %q instead of the input named %q", a.Param, got, a.Param.Name), det)
+					key := "wrong-input-converted"
+					if mode == 4 {
+						key = "wrong-input-converted/second-input-supplied"
+					}
+					res.violate("C07", key, fmt.Sprintf("parameter %v was converted from the input named %q instead of the input named %q", a.Param, got, a.Param.Name), det)
 				}
 				res.obs("converter_arguments_checked", 1)
 			}
